@@ -155,9 +155,10 @@ def run_check(pid, tier="quick", seed=None, replay=None, keep=None):
     by_cid = {c["cid"]: c for c in cases}
     # ---- violations -> known findings / VIOLATION lines
     viol_lines, known_lines, nviol = [], {}, 0
-    seen_unknown = {}
+    per_qty = {}
     for r in results:
         case = by_cid.get(r["cid"], {})
+        unknown = []
         for v in r.get("violations", []):
             key = None
             if hasattr(mod, "classify"):
@@ -166,19 +167,24 @@ def run_check(pid, tier="quick", seed=None, replay=None, keep=None):
                 except Exception as exc:  # a broken classifier must not hide a violation
                     key = None
                     v["classifier_error"] = repr(exc)
+            v["classified_as"] = key
             if key is not None and key in known_keys:
                 known_lines.setdefault(key, []).append((r["cid"], v))
                 continue
             nviol += 1
-            sig = (v.get("what"), v.get("qty"))
-            if sig in seen_unknown and seen_unknown[sig] >= 3:
-                continue
-            seen_unknown[sig] = seen_unknown.get(sig, 0) + 1
-            path = os.path.join(env.REPLAYS, "%s-%s.json" % (pid, case_digest(case)))
-            with open(path, "w") as fh:
-                json.dump({"property": pid, "tier": tier, "seed": seed, "case": case, "violation": v,
-                           "classified_as": key, "repo": env.REPO}, fh, indent=1, default=_jdefault)
-            viol_lines.append("VIOLATION property=%s replay=%s  # %s" % (pid, path, v.get("what", "")[:160]))
+            unknown.append(v)
+        if not unknown:
+            continue
+        q = unknown[0].get("qty")
+        per_qty[q] = per_qty.get(q, 0) + 1
+        if per_qty[q] > 3 or len(viol_lines) >= 12:
+            continue
+        path = os.path.join(env.REPLAYS, "%s-%s.json" % (pid, case_digest(case)))
+        with open(path, "w") as fh:
+            json.dump({"property": pid, "tier": tier, "seed": seed, "case": case, "violations": unknown,
+                       "repo": env.REPO}, fh, indent=1, default=_jdefault)
+        viol_lines.append("VIOLATION property=%s replay=%s  # %s%s" % (
+            pid, path, unknown[0].get("what", "")[:200], " (+%d more in this case)" % (len(unknown) - 1) if len(unknown) > 1 else ""))
 
     # ---- inconclusive conditions
     incon = list(problems)
